@@ -483,6 +483,9 @@ struct Doc {
 	/// spelling of the text handed to the code under test
 	pretty: bool,
 	float_bytes: bool,
+	/// 0 = the text as serde_json writes it; otherwise the seed of a re-spelling (`respell`)
+	#[serde(default)]
+	spell: u32,
 }
 
 const RESERVED: [&str; 5] = ["bounds", "center", "vector_layers", "minzoom", "maxzoom"];
@@ -545,8 +548,9 @@ fn doc(max_entries: usize) -> BoxedStrategy<Doc> {
 		prop_oneof![2 => Just(vec![]), 3 => vec(layer(), 1..=4)],
 		any::<bool>(),
 		proptest::bool::weighted(0.25),
+		prop_oneof![2 => Just(0u32), 3 => 1u32..],
 	)
-		.prop_map(|(entries, bounds, center, minzoom, maxzoom, layers, pretty, float_bytes)| Doc { entries, bounds, center, minzoom, maxzoom, layers, pretty, float_bytes })
+		.prop_map(|(entries, bounds, center, minzoom, maxzoom, layers, pretty, float_bytes, spell)| Doc { entries, bounds, center, minzoom, maxzoom, layers, pretty, float_bytes, spell })
 		.boxed()
 }
 
@@ -635,6 +639,8 @@ fn doc_model(d: &Doc) -> DocInfo {
 	let keys = map.len();
 	let value = Value::Object(map);
 	let text = if d.pretty { serde_json::to_string_pretty(&value) } else { serde_json::to_string(&value) }.expect("serde_json serialises its own value");
+	let text = vt::gen::respell(&text, d.spell);
+	debug_assert_eq!(serde_json::from_str::<Value>(&text).ok().as_ref(), Some(&value), "respell changed the meaning of {text}");
 	let want = match N::from_serde(&value) {
 		N::Obj(m) => m,
 		_ => unreachable!(),
@@ -844,13 +850,16 @@ fn oracle_doc(d: &Doc, obs: &mut Obs) -> Result<(), Fail> {
 
 	doc_labels(&info, d, obs);
 	obs.label(if d.pretty { "text:pretty" } else { "text:compact" });
+	obs.label_if(d.spell != 0, "text:respelled");
+	obs.label_if(d.spell != 0 && (d.spell >> 2) % 3 == 2, "text:upper-case-hex-escapes");
+	obs.label(match info.text.len() { 0..=4096 => "text<=4KiB", 4097..=8192 => "text:4-8KiB", _ => "text>8KiB" });
 	obs.label_if(d.float_bytes, "text:bytes-spelled-as-floats");
 	obs.count("text_bytes", info.text.len() as u64);
 	Ok(())
 }
 
 fn fixed_docs() -> Vec<Doc> {
-	let empty = Doc { entries: vec![], bounds: None, center: None, minzoom: None, maxzoom: None, layers: vec![], pretty: false, float_bytes: false };
+	let empty = Doc { entries: vec![], bounds: None, center: None, minzoom: None, maxzoom: None, layers: vec![], pretty: false, float_bytes: false, spell: 0 };
 	let mut v = vec![empty.clone()];
 	v.push(Doc {
 		entries: vec![
@@ -872,7 +881,14 @@ fn fixed_docs() -> Vec<Doc> {
 		],
 		pretty: true,
 		float_bytes: true,
+		spell: 0,
 	});
+	// the same document in other spellings: white space runs that push it beyond 4 and 8 KiB,
+	// lower- and upper-case hex escapes
+	let rich = v[1].clone();
+	for spell in [1u32, 2, 3, 6, 10, 5, 9, 14, 22, 26, 102, 1002, 70002] {
+		v.push(Doc { spell, ..rich.clone() });
+	}
 	for k in RESERVED.iter().chain(["tilejson", "tiles", "name"].iter()) {
 		// the structured keys next to look-alikes
 		v.push(Doc { entries: vec![(format!("{k} "), Val::Str("x".into())), (k.to_uppercase(), Val::Byte(7))], ..empty.clone() });
